@@ -20,7 +20,8 @@ RULE = ("Completed runs of both front ends from the shared end-to-end generator 
         "the list itself equals those reference densities as a multiset. Joint runs whose cost equals the all-pairs formula "
         "(boundary pairs priced) match the signature of known finding KF1. A second family runs single series with 4097..9000 "
         "stacked rows, short regimes and a regime change placed exactly at rows 4096 and 8192. Non-trivial = >=1 label switch "
-        "and (an empty final cluster or >=2 series or more than 4096 stacked rows); distinct by SHA-1 of the case.")
+        "and (an empty final cluster or >=2 series or more than 4096 stacked rows); distinct by SHA-1 of the case."
+        ' Pinned wide-window runs with sensors at 1e6 (log-determinants beyond -745).')
 ASSUMPTIONS = ["cluster association of per-point values comes from reference densities under the final model (hook), not from the list layout",
                "tolerance: relative 1e-9 of the sum of absolute terms (plus the condition-number-aware bound of C05 for densities)"]
 
@@ -123,8 +124,10 @@ def execute(case, t):
 
 
 def _pinned():
+    # wide windows with sensors at 1e6: log-determinants near -900 and below (exp() of them underflows)
+    from props.C03 import _pinned_wide
     # a joint run that (on the pinned tree) switches label exactly at a series boundary: exhibits KF1 deterministically
-    return [{"front": "joint", "N": 1, "W": 1, "K": 2, "lengths": [20, 20], "regimes": 2, "mean_spread": 6.0, "data_seed": 5,
+    return _pinned_wide()[:2] + [{"front": "joint", "N": 1, "W": 1, "K": 2, "lengths": [20, 20], "regimes": 2, "mean_spread": 6.0, "data_seed": 5,
              "np_seed": 1, "py_seed": 1, "beta": 2.0, "beta_form": "scalar", "lam": 0.11, "lam_form": "scalar", "limit": 5,
              "m": 2, "biased": False, "eps": 0, "num_processors": 1, "boundary_regime_flip": True}]
 
